@@ -28,4 +28,23 @@ CHECKS = {
   "text": "TLC checks the life-cycle specification GBNLife.tla (five-step Close body under a once guard, loop exits, FIN, blocked callers) for all interleavings and three transport conditions (NoLeak, CloseCompletes, BlockedCallersWake, PeerLearns, Idempotent); real connections are closed at many instants of five scenarios by single/both/repeated/concurrent callers under four transport conditions and the recorded life-cycle events, call durations and the final goroutine inventory are validated against the specification.",
   "note": "close instants sampled on a time grid; FIN-send-blocks scenarios run in real time (sync.Once waits are not durable in a synctest bubble); transport honours ctx; GBN level only",
  },
+ "C17": {
+  "text": "Pairing.tla specifies the mnemonic bit-stream codec generically and the per-direction stream-id relations; TLC checks the inverse laws exhaustively for small (bits/word, words, bytes) parameters and evaluates the same operators with the real parameters (11, 10, 14) on logged inputs/outputs of the real functions (every single-bit entropy, tail-bit patterns, random entropies and phrases, NewPassphraseEntropy, ConnData.SID for both roles before/after pairing, GetSID per direction).",
+  "note": "hashes/ECDH abstract (interned ids); distinct-secret inequality checked on sampled pairs only",
+  "technique": "TLA+ operators checked by TLC + function-trace validation",
+ },
+ "C15": {
+  "text": "RecordIO.tla models the three reader automata (NoiseGrpcConn.Read with its 32 KiB split, NoiseConn.Read, connKit.Read) and the write chunking over abstract byte positions; TLC checks the stream contract for every sequence of small write and buffer sizes; the real connections (NoiseGrpcConn over a real connKit, NoiseConn, plain connKit) are driven with boundary and random write / read-buffer sizes and every logged Read/Write is validated by TLC against the same contract with the real constants.",
+  "note": "model with small symbolic constants (GRPCBUF=4, MAXREC=6), trace validation with the real ones; zero-length writes on the gRPC variant only",
+  "technique": "TLA+ model checking (TLC) + call-trace validation of the real connections",
+ },
+ "C16": {
+  "text": "RecordIO!FlushStep transcribes Machine.Flush's resumable partial-write arithmetic; TLC checks EmitOnce/CountExact/NoNewRecordWhilePending for every way a writer can accept a small record in pieces; the real Machine is flushed through a writer accepting every 2-way and sampled/all 3-way split of the wire bytes for 7 payload sizes (plus random partitions of 64 KiB records), every Flush call compared with FlushStep; handshakes of both patterns and all versions and record exchanges are run over readers returning 1..k bytes per Read.",
+  "note": "writer returns a net.Error timeout after a prefix; read granularities 1, 2, 7, 33, random",
+  "technique": "TLA+ model checking (TLC) + function-trace validation",
+ },
+ "C20": {
+  "text": "TimeoutMgr.tla models TimeoutManager/TimeoutBooster in integer milliseconds; TLC checks FloorOK, StaticOK, SampleClean, BoostRate, FreshSampleResets for every history up to 6-7 events over boundary inter-event times, then replays recorded random histories of the real TimeoutManager (virtual clock, 7 configurations incl. the mailbox's) through the specification's actions comparing all getters after each event.",
+  "note": "float32 boost arithmetic compared with 1 ms tolerance; bounded history length in the model",
+ },
 }
